@@ -53,6 +53,11 @@ type sctx struct {
 	nfix   int
 	rtype  string            // Gallina type of the value the translated function returns
 	extra  []string          // parameters introduced by opaque calls
+	loops  []loopK           // enclosing loops translated in continuation form (innermost last)
+}
+
+type loopK struct {
+	brk, cont func() string
 }
 
 func gname(s string) string { return strings.ReplaceAll(s, ".", "_") }
@@ -111,6 +116,9 @@ func (c *sctx) effectCall(e ast.Expr) (string, bool) {
 	}
 	var args []string
 	for _, a := range call.Args {
+		if cl, ok := a.(*ast.CompositeLit); ok && len(cl.Elts) == 1 { // []byte{x}: the one byte
+			a = cl.Elts[0]
+		}
 		s, t := c.v.expr(a, "")
 		if t == "bool" {
 			s = "(if " + s + " then 1 else 0)"
@@ -118,6 +126,24 @@ func (c *sctx) effectCall(e ast.Expr) (string, bool) {
 		args = append(args, s)
 	}
 	return fmt.Sprintf("(%d, [%s])", id, strings.Join(args, "; ")), true
+}
+
+// is e a call of another translated function that has state and/or effects?  (arguments are not looked at)
+func (c *sctx) transSig(e ast.Expr) (*sig, bool) {
+	call, ok := e.(*ast.CallExpr)
+	if !ok {
+		return nil, false
+	}
+	key := selKey(call.Fun)
+	name := key
+	if i := strings.LastIndex(key, "."); i >= 0 {
+		name = key[i+1:]
+	}
+	s, ok := sigs[name]
+	if !ok || (!s.stateful && !s.effects) {
+		return nil, false
+	}
+	return s, true
 }
 
 // call of another translated function that has state and/or effects
@@ -350,6 +376,18 @@ func (c *sctx) block(l []ast.Stmt, k func() string) string {
 			ri++
 		}
 		return "(" + pre + c.retExpr(vals) + ")"
+	case *ast.BranchStmt:
+		if len(c.loops) == 0 || s.Label != nil {
+			fail("%s outside a translated loop", s.Tok)
+		}
+		lk := c.loops[len(c.loops)-1]
+		if s.Tok == token.BREAK {
+			return lk.brk()
+		}
+		if s.Tok == token.CONTINUE {
+			return lk.cont()
+		}
+		fail("unsupported branch statement %s", s.Tok)
 	case *ast.DeclStmt:
 		g, ok := s.Decl.(*ast.GenDecl)
 		if !ok || g.Tok != token.VAR {
@@ -647,8 +685,8 @@ func (c *sctx) block(l []ast.Stmt, k func() string) string {
 			case *ast.BranchStmt:
 				fail("%s inside a loop", b.Tok)
 			case *ast.CallExpr:
-				if _, ok := c.effectCall(b); ok {
-					fail("effect inside a loop")
+				if _, ok := c.t.Effects[selKey(b.Fun)]; ok {
+					fail("effect inside a range loop")
 				}
 			}
 			return true
@@ -706,19 +744,27 @@ func (c *sctx) block(l []ast.Stmt, k func() string) string {
 			body = append(body, s.Post)
 		}
 		assigned(body, map[string]bool{}, &carried)
+		general, callsStateful := false, false
 		ast.Inspect(s.Body, func(n ast.Node) bool {
 			switch b := n.(type) {
-			case *ast.BranchStmt:
-				fail("%s inside a loop", b.Tok)
-			case *ast.ReturnStmt:
-				fail("return inside a loop")
+			case *ast.BranchStmt, *ast.ReturnStmt:
+				general = true
 			case *ast.CallExpr:
-				if _, ok := c.effectCall(b); ok {
-					fail("effect inside a loop")
+				if _, ok := c.t.Effects[selKey(b.Fun)]; ok {
+					general = true
+				}
+				if sg, ok := c.transSig(b); ok {
+					general = true
+					if sg.stateful {
+						callsStateful = true
+					}
 				}
 			}
 			return true
 		})
+		if general {
+			return c.generalLoop(s, carried, callsStateful, rest)
+		}
 		var names []string
 		for _, v := range carried {
 			if _, ok := c.isState(v); !ok && c.v.types[v] == "" {
@@ -749,6 +795,74 @@ func (c *sctx) block(l []ast.Stmt, k func() string) string {
 	}
 	fail("unsupported statement %T", l[0])
 	return ""
+}
+
+// A loop whose body leaves early (return, break, continue), performs effects or calls translated code: continuation form.
+//
+//	let kN_ := fun carried => REST in
+//	(fix loopN_ fuel carried := match fuel with O => kN_ carried | S f => if cond then BODY else kN_ carried end) FUEL carried
+//
+// where the end of BODY and `continue` run the post statement and call loopN_ f carried', `break` calls kN_ carried,
+// `return` leaves with the function's result.  The event list and (when translated stateful code is called) all state
+// fields are carried too.
+func (c *sctx) generalLoop(s *ast.ForStmt, carried []string, allState bool, rest func() string) string {
+	var names []string
+	seen := map[string]bool{}
+	add := func(n string) {
+		if !seen[n] {
+			seen[n] = true
+			names = append(names, n)
+		}
+	}
+	for _, v := range carried {
+		if _, ok := c.isState(v); ok {
+			add(gname(v))
+			continue
+		}
+		if c.v.types[v] == "" {
+			continue // declared inside the body
+		}
+		if c.v.types[v] == "bool" || c.v.types[v] == "error" || strings.HasPrefix(c.v.types[v], "slice:") {
+			fail("loop carries %s of type %s", v, c.v.types[v])
+		}
+		add(v)
+	}
+	if allState {
+		for _, f := range c.state {
+			add(gname(f.Name))
+		}
+	}
+	withEv := c.t.Mode != "pure2"
+	c.nfix++
+	loop, kn := fmt.Sprintf("loop%d_", c.nfix), fmt.Sprintf("k%d_", c.nfix)
+	args := strings.Join(names, " ")
+	pars := ""
+	if len(names) > 0 {
+		pars = " (" + args + " : Z)"
+	}
+	if withEv {
+		args = strings.TrimSpace(args + " ev_")
+		pars += " (ev_ : list (Z * list Z))"
+	}
+	if args == "" {
+		args, pars = "tt", " (_ : unit)"
+	}
+	restE := rest()
+	cond, _ := c.v.expr(s.Cond, "bool")
+	saved := c.v.types
+	c.v.types = cloneTypes(saved)
+	next := func() string {
+		if s.Post != nil {
+			return c.block([]ast.Stmt{s.Post}, func() string { return loop + " fuel_ " + args })
+		}
+		return loop + " fuel_ " + args
+	}
+	c.loops = append(c.loops, loopK{brk: func() string { return kn + " " + args }, cont: next})
+	bodyE := c.block(s.Body.List, next)
+	c.loops = c.loops[:len(c.loops)-1]
+	c.v.types = saved
+	return "(let " + kn + " := fun" + pars + " => " + restE + " in\n   (fix " + loop + " (fuel__ : nat)" + pars + " {struct fuel__} : " + c.rtype + " :=\n     match fuel__ with\n     | O => " + kn + " " + args +
+		"\n     | S fuel_ => if " + cond + " then " + bodyE + " else " + kn + " " + args + "\n     end) " + fmt.Sprintf("%d%%nat ", c.fuel) + args + ")"
 }
 
 func sliceElemType(sl sliceSpec) string {
